@@ -28,7 +28,8 @@ type c11Desc struct {
 	Seed  int64  `json:"seed"`
 	Kind  string `json:"kind"` // records | session
 	Perms int    `json:"perms,omitempty"`
-	Big   int    `json:"big,omitempty"` // session: number of tiny distinct blocks (large in-memory index at Finalize)
+	Bulk  int    `json:"bulk,omitempty"` // records: this many further sha2-256 records (one bucket of more than 1 MiB)
+	Big   int    `json:"big,omitempty"`  // session: number of tiny distinct blocks (large in-memory index at Finalize)
 }
 
 type c11Rec struct {
@@ -150,9 +151,28 @@ func runC11(t *mon.T, raw json.RawMessage) {
 			recs = append(recs, c11Rec{refcar.MakeCidV1(0x55, sc.MhCode^0x1, sc.Digest), uint64(r.Int63())})
 		}
 	}
+	if r.Intn(6) == 0 {
+		// a digest longer than the DEFAULT MaxIndexCidSize (a user option; identity digests have any length)
+		w := []int{2040, 2041, 2048, 2049, 3000, 5000}[r.Intn(6)]
+		recs = append(recs, c11Rec{refcar.MakeCidV1(0x55, 0x00, gen.Bytes(r, w)), uint64(r.Int63())})
+		t.Cover("multisets-with-a-digest-over-2KiB")
+	}
+	if d.Bulk > 0 {
+		// one bucket far larger than any read buffer, with other buckets and hash codes before and after it
+		for i := 0; i < d.Bulk; i++ {
+			recs = append(recs, c11Rec{refcar.MakeCidV1(0x55, 0x12, gen.Bytes(r, 32)), uint64(r.Int63())})
+		}
+		recs = append(recs, c11Rec{refcar.MakeCidV1(0x55, 0x13, gen.Bytes(r, 64)), 7}, c11Rec{refcar.MakeCidV1(0x55, 0x11, gen.Bytes(r, 20)), 9},
+			c11Rec{refcar.MakeCidV1(0x55, 0xb220, gen.Bytes(r, 32)), 11}, c11Rec{refcar.MakeCidV1(0x55, 0x00, gen.Bytes(r, 70)), 13})
+		t.Cover("multisets-with-a-bucket-over-1MiB")
+	}
 	t.Nontrivial()
 	var probes [][]byte
-	for _, rc := range recs {
+	probeRecs := recs
+	if len(probeRecs) > 120 {
+		probeRecs = append(append([]c11Rec{}, recs[:60]...), recs[len(recs)-60:]...)
+	}
+	for _, rc := range probeRecs {
 		probes = append(probes, rc.cid)
 		sc, _, _ := refcar.SplitCid(rc.cid)
 		probes = append(probes, refcar.MakeCidV1(0x71, sc.MhCode+0x100, sc.Digest))
@@ -341,6 +361,19 @@ func c11Session(t *mon.T, d c11Desc) {
 		if i > len(kept) {
 			i = len(kept)
 		}
+		if d.Seed&1 == 0 {
+			// the limit exactly at the longest CID the session does store
+			var longest uint64
+			for _, b := range kept {
+				if sc, _, _ := refcar.SplitCid(b.Cid); (!sc.IsIdentity() || cfg.StoreID) && uint64(len(b.Cid)) > longest {
+					longest = uint64(len(b.Cid))
+				}
+			}
+			if longest > 0 {
+				cfg.MaxCid = longest
+				t.Cover("sessions-with-the-cid-limit-at-the-longest-stored-cid")
+			}
+		}
 		content.Blocks = append(append(append([]refcar.Block{}, kept[:i]...), long), kept[i:]...)
 	}
 	dir := lab.TempDir("c11")
@@ -435,13 +468,18 @@ func c11Session(t *mon.T, d c11Desc) {
 	t.Nontrivial()
 	t.Cover("sessions")
 	codec, refCodec := codecOf(cfg.Sorted)
-	regen, err := carv2.GenerateIndex(bytes.NewReader(file[a.PayloadOff:a.PayloadOff+a.PayloadLen]), carv2.UseIndexCodec(codec), carv2.StoreIdentityCIDs(cfg.StoreID))
+	// regeneration runs under the session's own options (a CID limit the session accepted must not refuse its file)
+	genOpts := []carv2.Option{carv2.UseIndexCodec(codec), carv2.StoreIdentityCIDs(cfg.StoreID)}
+	if cfg.MaxCid > 0 {
+		genOpts = append(genOpts, carv2.MaxIndexCidSize(cfg.MaxCid))
+	}
+	regen, err := carv2.GenerateIndex(bytes.NewReader(file[a.PayloadOff:a.PayloadOff+a.PayloadLen]), genOpts...)
 	if err != nil {
 		t.Violatef("session/GenerateIndex/error", "GenerateIndex over the finished payload: %v", err)
 		return
 	}
 	// the same index must come out when the WHOLE container is given instead of its payload
-	if whole, err := carv2.GenerateIndex(bytes.NewReader(file), carv2.UseIndexCodec(codec), carv2.StoreIdentityCIDs(cfg.StoreID)); err != nil {
+	if whole, err := carv2.GenerateIndex(bytes.NewReader(file), genOpts...); err != nil {
 		t.Violatef("session/GenerateIndex(whole file)/error", "GenerateIndex over the finished file: %v", err)
 	} else {
 		var wb, pb bytes.Buffer
@@ -491,6 +529,9 @@ func genC11(g *mon.G) {
 	for i := 0; i < g.Pick(800, 12000); i++ {
 		g.Emit(c11Desc{Seed: r.Int63(), Kind: "records", Perms: g.Pick(8, 24)})
 	}
+	for i := 0; i < g.Pick(2, 10); i++ {
+		g.Emit(c11Desc{Seed: r.Int63(), Kind: "records", Perms: 2, Bulk: []int{27000, 53000, 30000}[i%3] + r.Intn(3000)})
+	}
 	for i := 0; i < g.Pick(400, 8000); i++ {
 		g.Emit(c11Desc{Seed: r.Int63(), Kind: "session"})
 	}
@@ -508,6 +549,6 @@ func init() {
 		Assumptions: []string{"reference index parser/builder (refcar)", "order among entries sharing one digest is left open by the format and is canonicalised before comparison"},
 		Gen:         genC11,
 		Run:         runC11,
-		MinCover:    map[string]int{"multisets-with-repeated-digest": 20, "multisets-with-shared-digest-prefixes": 50, "sessions": 50, "sessions-without-repeated-digest": 10, "sessions-with-repeated-digest": 5, "big-sessions": 3, "multisets-with-more-than-64-widths": 20, "sessions-with-a-batch-refused-midway": 20, "sessions-resumed-after-discard": 20, "sessions-resumed-after-finalize": 20},
+		MinCover:    map[string]int{"multisets-with-repeated-digest": 20, "multisets-with-shared-digest-prefixes": 50, "sessions": 50, "sessions-without-repeated-digest": 10, "sessions-with-repeated-digest": 5, "big-sessions": 3, "multisets-with-a-digest-over-2KiB": 20, "sessions-with-the-cid-limit-at-the-longest-stored-cid": 5, "multisets-with-a-bucket-over-1MiB": 2, "multisets-with-more-than-64-widths": 20, "sessions-with-a-batch-refused-midway": 20, "sessions-resumed-after-discard": 20, "sessions-resumed-after-finalize": 20},
 	})
 }
